@@ -48,7 +48,7 @@ impl Op {
     }
 }
 
-pub fn all_ops(universe: usize) -> Vec<Op> {
+pub fn all_ops(universe: usize, extended: bool) -> Vec<Op> {
     let mut v = Vec::new();
     for a in 0..universe {
         v.push(Op::Insert(a));
@@ -64,7 +64,7 @@ pub fn all_ops(universe: usize) -> Vec<Op> {
     for a in 0..universe {
         v.push(Op::SetData(a));
     }
-    for a in 0..universe {
+    for a in (0..universe).filter(|_| extended) {
         v.push(Op::AddEmpty(a));
         v.push(Op::SetEmpty(a));
         v.push(Op::AddMulti(a));
@@ -505,7 +505,7 @@ pub fn handle(req: &J) -> J {
     // silence the default panic printer while we deliberately catch panics
     match (target, mode) {
         ("ds", "exhaustive") => {
-            let ops = all_ops(universe);
+            let ops = all_ops(universe, req.get("extended").and_then(J::as_bool).unwrap_or(true));
             // optional sharding on the first `prefix` operations
             let shard = req.get("shard").and_then(J::as_u64).unwrap_or(0) as usize;
             let shards = req.get("shards").and_then(J::as_u64).unwrap_or(1) as usize;
